@@ -78,9 +78,9 @@ bool mapped_queries(CaseResult &res, const Index &idx, const std::vector<K> &key
     return true;
 }
 
-template<typename K, size_t Eps, size_t ER>
+template<typename K, size_t Eps, size_t ER, typename F>
 CaseResult run_mapped(const RunCtx &ctx, TapeReader &t, unsigned size_hint) {
-    using Index = pgm::MappedPGMIndex<K, Eps, ER>;
+    using Index = pgm::MappedPGMIndex<K, Eps, ER, F>;
     CaseResult res;
     const bool c11 = ctx.prop == "C11", c12 = ctx.prop == "C12";
     const bool mem = ctx.mode == "mem";
@@ -111,7 +111,7 @@ CaseResult run_mapped(const RunCtx &ctx, TapeReader &t, unsigned size_hint) {
 
     const bool use_raw = !c12 && t.chance(1, 4); // C11: a quarter of the cases through the raw-file constructor
     std::ostringstream head;
-    head << "MappedPGMIndex<" << type_name<K>() << "," << Eps << "," << ER << ">";
+    head << "MappedPGMIndex<" << type_name<K>() << "," << Eps << "," << ER << "," << type_name<F>() << ">";
     if (c12) {
         head << " script=";
         for (int op: script) head << op;
@@ -235,9 +235,9 @@ CaseResult run_mapped(const RunCtx &ctx, TapeReader &t, unsigned size_hint) {
     return res;
 }
 
-// X(Epsilon, EpsilonRecursive)
-#define VF_MAPPED_CONFIGS(X) X(1, 0) X(4, 4) X(8, 4) X(128, 0) X(1, 4) X(128, 4)
+// X(Epsilon, EpsilonRecursive, Floating): the slope type changes sizeof(Segment), hence the layout and alignment of the file header
+#define VF_MAPPED_CONFIGS(X) X(1, 0, float) X(4, 4, double) X(8, 4, float) X(128, 0, double) X(1, 4, double) X(128, 4, float)
 constexpr int VF_MAPPED_NCFG = 6;
-#define VF_MAPPED_FN(E, ER) &run_mapped<VF_KEY, E, ER>,
+#define VF_MAPPED_FN(E, ER, F) &run_mapped<VF_KEY, E, ER, F>,
 
 } // namespace vf
